@@ -7,6 +7,12 @@ def main():
     print('translator:', msg)
     if not ok:
         sys.exit(1)
+    stale = core.tie_stale()
+    if stale:
+        # not a setup failure: the committed definitions are in place for these names, bin/check reports the tie broken for
+        # the properties that depend on them
+        print('translator: %d anchored name(s) could not be translated from %s and keep their committed definition: %s' % (
+            len(stale), core.REPO, ' '.join(sorted(stale))))
     # the translator's own mutation self-test: a single-token change of an anchored source expression must change the output
     rc, out = core.sh([sys.executable, core.os.path.join(core.VERIF, 'tools', 'translate_consts.py'), '--repo', core.REPO, '--selftest'])
     print('translator self-test:', out.strip().split('\n')[-1])
